@@ -26,6 +26,7 @@ type EntrySpec struct {
 	Preempt      int      `json:"preempt"`
 	MapOrder     bool     `json:"map_order"`
 	AllowBlocked bool     `json:"allow_blocked"`
+	HashTransparent bool  `json:"hash_transparent"`
 	MaxConc      int      `json:"max_concretize"`
 	Bounds       string   `json:"bounds"`
 	What         string   `json:"what"`
@@ -296,6 +297,7 @@ func cmdCheck(args []string) {
 			cfg.Preempt = es.Preempt
 			cfg.MapOrderAll = es.MapOrder
 			cfg.AllowBlocked = es.AllowBlocked
+			cfg.HashTransparent = es.HashTransparent
 			if j.mustFail {
 				cfg.StopOnViolation = true
 			}
